@@ -13,7 +13,7 @@
    in literal order.  An atom hit of a literal that `confirm_ac_literal` then rejects has no effect,
    and a confirmed literal always has its atom hit, so the hits that matter are the confirmed
    (literal, position) pairs in that order.  Definitions only. *)
-From Boreal Require Import Base.Prelude Spec.Regex Model.Widen Model.Validator Model.Raw.
+From Boreal Require Import Base.Prelude Spec.Regex Model.Widen Model.Validator Model.SimpleValidator Model.Raw.
 
 Inductive vkind := KLiterals | KNonGreedy | KGreedy | KRaw.
 
@@ -96,6 +96,20 @@ Fixpoint insert_match (ms : list (N * N)) (x : N * N) : list (N * N) :=
 Definition last_offset (ms : list (N * N)) : option N :=
   match rev ms with [] => None | y :: _ => Some (fst y) end.
 
+(* ---- HalfValidator::new: the simple byte walker when it accepts the HIR, else the DFA.
+   (The slices `haystack[start..end]` of the simple walker need start <= end; `handle_possible_match`
+   never calls it otherwise — start_position <= end of the literal — and the model answers None.) *)
+Definition half_fwd (md : mods) (h : hir) (mt : mtype) (mem : list N) : N -> N -> option N :=
+  match simple_new md h false with
+  | Some sv => fun start lim => if start <=? lim then simple_fwd sv mem start lim else None
+  | None => dfa_fwd md h mt mem
+  end.
+Definition half_rev (md : mods) (h : hir) (mt : mtype) (mem : list N) : N -> N -> option N :=
+  match simple_new md h true with
+  | Some sv => fun lo e => if lo <=? e then simple_rev sv mem lo e else None
+  | None => dfa_rev md h mt mem
+  end.
+
 (* ---- process_ac_match *)
 Definition process_ac_match (d : sdesc) (mem : list N) (ms me sp : N) (mt : mtype) : list (N * N) :=
   let md := s_mods d in
@@ -104,8 +118,8 @@ Definition process_ac_match (d : sdesc) (mem : list N) (ms me sp : N) (mt : mtyp
   | KNonGreedy =>
       filter (fun se => validate_fullword md mem (fst se) (snd se) mt)
         (validate_nongreedy (nlen mem)
-           (option_map (fun h => dfa_fwd md h mt mem) (s_post d))
-           (option_map (fun h => dfa_rev md h mt mem) (s_pre d))
+           (option_map (fun h => half_fwd md h mt mem) (s_post d))
+           (option_map (fun h => half_rev md h mt mem) (s_pre d))
            ms me sp)
   | KGreedy =>
       match s_pre d with
